@@ -62,14 +62,14 @@ Theorem after_close_everything_is_refused s :
   (forall k last tag, step s (Deliver k last tag) = (s, ODeliverErr EClosed)) /\
   step s Close = (s, OClosed).
 Proof.
-  intros Hc. cbn [step]. unfold csend, enqueue, deliver, close_handler. rewrite Hc. auto.
+  intros Hc. cbn [step]. unfold csend, enqueue, deliver, close_handler; rewrite ?check2_eq. rewrite Hc. auto.
 Qed.
 
 Lemma step_closed_stays s o : closed s = true -> closed (fst (step s o)) = true.
 Proof.
   intros Hc. destruct o; cbn [step].
-  - unfold enqueue. now rewrite Hc.
-  - unfold csend, enqueue. now rewrite Hc.
+  - unfold enqueue; rewrite ?check2_eq. now rewrite Hc.
+  - unfold csend, enqueue; rewrite ?check2_eq. now rewrite Hc.
   - unfold ctake. destruct (outq s); assumption.
   - unfold deliver. now rewrite Hc.
   - assumption.
@@ -107,14 +107,14 @@ Record TInv (s : state) : Prop := mkTInv {
 Lemma now_step s o : now (fst (step s o)) = now s + match o with Tick d => d | _ => 0 end.
 Proof.
   destruct o; cbn [step]; try lia.
-  - unfold enqueue. destruct (closed s); [cbn; lia|]. destruct (k =? 0).
-    + destruct (pool s); [cbn; lia|]. destruct (check _ _); cbn [fst]; [|cbn; lia]. unfold release. destruct (_ <? _); cbn; lia.
-    + destruct (check _ _); cbn; lia.
-  - unfold csend, enqueue. destruct (closed s); [cbn; lia|]. destruct (k =? 0).
-    + destruct (pool s); [cbn; lia|]. destruct (check _ _); cbn [fst].
+  - unfold enqueue; rewrite ?check2_eq. destruct (closed s); [cbn; lia|]. destruct (k =? 0).
+    + destruct (pool s); [cbn; lia|]. rewrite ?check2_eq; destruct (check _ _); cbn [fst]; [|cbn; lia]. unfold release. destruct (_ <? _); cbn; lia.
+    + rewrite ?check2_eq; destruct (check _ _); cbn; lia.
+  - unfold csend, enqueue; rewrite ?check2_eq. destruct (closed s); [cbn; lia|]. destruct (k =? 0).
+    + destruct (pool s); [cbn; lia|]. rewrite ?check2_eq; destruct (check _ _); cbn [fst].
       * unfold release. destruct (_ <? _); cbn; lia.
       * destruct (_ <? _); cbn; lia.
-    + destruct (check _ _); [cbn; lia|]. destruct (_ <? _); cbn; lia.
+    + rewrite ?check2_eq; destruct (check _ _); [cbn; lia|]. destruct (_ <? _); cbn; lia.
   - unfold ctake. destruct (outq s); cbn; lia.
   - unfold deliver. destruct (closed s); [cbn; lia|]. destruct (lookup _ _); [|cbn; lia]. destruct last.
     + destruct (managed r).
@@ -180,8 +180,8 @@ Proof.
     destruct (H3 r Hin) as [Hold|Hnew]; [now apply Hdl|now apply Hnew]. }
   destruct o; cbn [step].
   - (* Send *)
-    unfold enqueue. destruct (closed s); [now constructor|]. destruct (k =? 0).
-    + destruct (pool s) as [|i rest]; [now constructor|]. rewrite check_set_pool. destruct (check s i) eqn:Hck; cbn [fst].
+    unfold enqueue; rewrite ?check2_eq. destruct (closed s); [now constructor|]. destruct (k =? 0).
+    + destruct (pool s) as [|i rest]; [now constructor|]. rewrite ?check2_eq, check_set_pool. destruct (check s i) eqn:Hck; cbn [fst].
       * unfold release. destruct (_ <? _); apply Hgen; auto.
       * apply check_None in Hck. destruct Hck as [_ Hnot]. apply Hgen; try reflexivity.
         intros r Hin. apply (all_reqs_register (set_pool s rest) i true r Hnot) in Hin. destruct Hin as [Hin | ->]; [now left|].
@@ -191,8 +191,8 @@ Proof.
       intros r Hin. apply (all_reqs_register s k false r Hnot) in Hin. destruct Hin as [Hin | ->]; [now left|].
       right. now apply new_req_dl_ok.
   - (* CSend *)
-    unfold csend, enqueue. destruct (closed s); [now constructor|]. destruct (k =? 0).
-    + destruct (pool s) as [|i rest]; [now constructor|]. rewrite check_set_pool. destruct (check s i) eqn:Hck; cbn [fst].
+    unfold csend, enqueue; rewrite ?check2_eq. destruct (closed s); [now constructor|]. destruct (k =? 0).
+    + destruct (pool s) as [|i rest]; [now constructor|]. rewrite ?check2_eq, check_set_pool. destruct (check s i) eqn:Hck; cbn [fst].
       * unfold release. destruct (_ <? _); apply Hgen; auto.
       * apply check_None in Hck. destruct Hck as [_ Hnot].
         assert (Hreg : TInv (register (set_pool s rest) i true)).
@@ -325,8 +325,8 @@ Qed.
 
 Lemma enqueue_lookup s k0 k r : lookup k (inflight s) = Some r -> lookup k (inflight (fst (enqueue s k0))) = Some r.
 Proof.
-  intros Hl. unfold enqueue. destruct (closed s); [assumption|]. destruct (k0 =? 0).
-  - destruct (pool s) as [|i rest]; [assumption|]. rewrite check_set_pool. destruct (check s i) eqn:Hck; cbn [fst].
+  intros Hl. unfold enqueue; rewrite ?check2_eq. destruct (closed s); [assumption|]. destruct (k0 =? 0).
+  - destruct (pool s) as [|i rest]; [assumption|]. rewrite ?check2_eq, check_set_pool. destruct (check s i) eqn:Hck; cbn [fst].
     + unfold release. destruct (_ <? _); assumption.
     + apply check_None in Hck. destruct Hck as [_ Hnot]. unfold register. cbn [inflight set_pool].
       rewrite (remove_key_notin _ _ Hnot), lookup_app_notin; [assumption|congruence].
